@@ -10,3 +10,6 @@ import KavaVerif.Props.C03
 #print axioms KV.PB.C03_inv_burn
 #print axioms KV.PB.C03_burn_exact
 #print axioms KV.PB.C03_guards
+#print axioms KV.PB.C03_inv_send_any
+#print axioms KV.PB.C03_inv_step
+#print axioms KV.PB.C03_reachable_inv
